@@ -63,6 +63,58 @@ theorem C07_condition_awaitable (cfg : Cfg) (sc : Script) (kd1 kd2 : Async.Kinds
   exact ⟨h1.1.trans h2.1.symm, h1.2.1.trans h2.2.1.symm, h1.2.2.1.trans h2.2.2.1.symm, h1.2.2.2.trans h2.2.2.2.symm⟩
 
 
+/-- **C07 with `may_` polls in the history** (the same statement as `C07_flat_partial` for histories and
+callback programs that mix awaited triggers with awaited `may_<event>` / `may_trigger` probes): the
+async engine and the synchronous engine agree up to `obsC07`, on the answers of every probe and every
+trigger, and on the engine state — so a probe changes nothing a later trigger could notice
+differently from the synchronous machine. -/
+theorem C07_flat_polls (cfg : Cfg) (sc : Script) (kd : Async.Kinds) (qm m0 qmax fuel : Nat)
+    (h : List Cmd) (s : St)
+    (hq : cfg.queued = (qm != 0)) (hsc : ScriptOKP qm m0 sc) (hh : ∀ c ∈ h, CmdOKP qm m0 c)
+    (hs : qm = 2 → ∀ e ∈ s.queue, e.1 = m0)
+    (hW : WellStaged cfg sc) :
+    Agree cfg sc (Async.runHistoryP sc kd cfg qm qmax fuel h s) (runHistory sc cfg qmax fuel h s) := by
+  have := runHistoryP_sim hsc hW kd hq qmax fuel h s s hh (Sim.refl s hs)
+  revert this
+  cases Async.runHistoryP sc kd cfg qm qmax fuel h s <;> cases runHistory sc cfg qmax fuel h s <;>
+    simp only [HSim, Agree] <;> intro hsim <;> first | exact hsim.elim | trivial | skip
+  exact ⟨hsim.log, hsim.mstate, hsim.models, hsim.queue⟩
+
+/-- **The awaited `may_<event>` probe agrees with the synchronous one** (`AsyncMachine._can_trigger`
+against `Machine._can_trigger`): same answer or same exception kind, same observation, same engine
+state afterwards — for every configuration in the regime, every kind assignment, every interpreter
+depth of the triggers / probes awaited by callbacks. -/
+theorem C07_may_agrees (cfg : Cfg) (sc : Script) (kd : Async.Kinds) (qm m0 qmax fuel m ev tag : Nat) (s : St)
+    (hq : cfg.queued = (qm != 0)) (hsc : ScriptOKP qm m0 sc) (hs : qm = 2 → ∀ e ∈ s.queue, e.1 = m0)
+    (hW : WellStaged cfg sc) :
+    match Async.canTrigger (Async.runCmdP sc kd cfg qm qmax fuel) sc kd cfg m ev tag s,
+          canTrigger (runCmd sc cfg qmax fuel) sc cfg m ev tag s with
+    | .ok v a, .ok w b => v = w ∧ Agree cfg sc (some a) (some b)
+    | .err e a, .err f b => e = f ∧ Agree cfg sc (some a) (some b)
+    | .oof, .oof => True
+    | _, _ => False := by
+  have := canTrigger_sim (runCmdP_sim hsc hW kd hq qmax fuel) hsc hW kd m ev tag s s (Sim.refl s hs)
+  revert this
+  cases Async.canTrigger (Async.runCmdP sc kd cfg qm qmax fuel) sc kd cfg m ev tag s <;>
+    cases canTrigger (runCmd sc cfg qmax fuel) sc cfg m ev tag s <;>
+    simp only [RSim, Agree] <;> intro h <;> first | exact h.elim | trivial | skip
+  · exact ⟨h.1, h.2.log, h.2.mstate, h.2.models, h.2.queue⟩
+  · exact ⟨h.1, h.2.log, h.2.mstate, h.2.models, h.2.queue⟩
+
+/-- **The awaited `may_` probe is pure** (C12_pure for the async engine): whatever it answers or
+raises, the model list, every model's state, the queue and the tag counter are unchanged — so a later
+trigger meets exactly the machine it would have met without the probe (in particular a trigger that
+is invalid in the current state still raises MachineError).  No regime hypothesis; scripts whose
+callbacks await nothing themselves, every kind assignment. -/
+theorem C07_may_pure (sub : Sub) (sc : Script) (kd : Async.Kinds) (cfg : Cfg) (hC : NoCmds sc) (m ev tag : Nat) (s : St) :
+    ∀ s', (Async.canTrigger sub sc kd cfg m ev tag s).state? = some s' →
+      s'.models = s.models ∧ s'.mstate = s.mstate ∧ s'.queue = s.queue ∧ s'.nextTag = s.nextTag := by
+  intro s' h
+  have := canTrigger_fr (cfg := cfg) hC sub kd m ev tag s
+  revert this h
+  cases Async.canTrigger sub sc kd cfg m ev tag s <;> simp only [Res.state?, RFr, Option.some.injEq] <;>
+    intro h hf <;> first | (subst h; exact hf) | cases h
+
 /-- **Stage barrier.**  Every coroutine callback and condition is awaited to completion before the
 next stage starts: whenever a stage (`gather`) returns — normally or with an exception — the trace it
 appended contains as many `done` as `call` items, i.e. everything it started has finished; for every
@@ -76,6 +128,11 @@ for every configuration, script, queue mode and fuel. -/
 theorem C07_history_barrier (cfg : Cfg) (sc : Script) (kd : Async.Kinds) (qm qmax fuel : Nat) (h : List Cmd) (s s' : St)
     (hr : Async.runHistory sc kd cfg qm qmax fuel h s = some s') : BalL s.log s'.log :=
   runHistory_bal kd qmax fuel h s s' hr
+
+/-- the same for histories with `may_` polls -/
+theorem C07_history_barrier_polls (cfg : Cfg) (sc : Script) (kd : Async.Kinds) (qm qmax fuel : Nat) (h : List Cmd) (s s' : St)
+    (hr : Async.runHistoryP sc kd cfg qm qmax fuel h s = some s') : BalL s.log s'.log :=
+  runHistoryP_bal kd qmax fuel h s s' hr
 
 /-- **Callbacks of one stage are started in registration order**: the `call` items a stage of
 command-free callbacks appends are exactly its callbacks, in list order, whatever their kinds and
